@@ -115,7 +115,7 @@ Watch(cfg) ==
   /\ UNCHANGED <<val, bw, trig, evq, wq, emode, stack, exc, nfaults>>
 
 Unwatch(w) ==
-  /\ "unwatch" \in Acts /\ CanOp /\ w \in WIds /\ Alive(w) /\ ~Busy(w)
+  /\ "unwatch" \in Acts /\ CanOp /\ w \in WIds /\ Alive(w)      \* (also from inside its own callback)
   \* (which of two watchers with identical settings and callable is removed is not specified)
   /\ \A w2 \in WIds \ {w} : Alive(w2) => [W[w2] EXCEPT !.alive = TRUE] # [W[w] EXCEPT !.alive = TRUE]
   /\ W' = [W EXCEPT ![w].alive = FALSE] /\ nops' = nops + 1
@@ -124,9 +124,11 @@ Unwatch(w) ==
 
 \* frame for the dispatch loop of one assignment.  reset: an Event parameter
 \* in 'set-reset' mode goes back to False when its __set__ completes.
-SetFrame(p, v, ret, reset) ==
+\* op: the number of the user operation this assignment belongs to; queued events carry it, so that an aborted
+\* dispatch can drop exactly what it (and the operations nested in it) queued and leave older events alone
+SetFrame(p, v, ret, reset, op) ==
   [k |-> "set", p |-> p, old |-> val[p], new |-> v, pend |-> SortByPrec(RegSeq(p), Precs),
-   ret |-> ret, reset |-> reset, dl |-> <<>>,
+   ret |-> ret, reset |-> reset, dl |-> <<>>, op |-> op,
    hasw |-> RegSeq(p) # <<>>]       \* Parameter.__set__ returns early when the parameter has no watcher at all
 
 Set(p, v) ==
@@ -136,7 +138,7 @@ Set(p, v) ==
           /\ Vis([a |-> "set", p |-> p, v |-> v, res |-> "rejected", obs |-> Obs(val), kf |-> {}])
           /\ UNCHANGED <<val, bw, trig, evq, wq, W, emode, stack, exc>>
      ELSE /\ val' = [val EXCEPT ![p] = v]
-          /\ stack' = Append(stack, SetFrame(p, v, TRUE, Kind[p] = "event"))
+          /\ stack' = Append(stack, SetFrame(p, v, TRUE, Kind[p] = "event", nops + 1))
           /\ Vis([a |-> "set", p |-> p, v |-> v, res |-> "begin", kf |-> {}])
           /\ UNCHANGED <<bw, trig, evq, wq, W, emode, exc, nfaults>>
 
@@ -244,7 +246,7 @@ StepSet ==
            THEN /\ stack' = Append(Pop, f2) /\ NoVis
                 /\ UNCHANGED <<val, bw, trig, evq, wq, W, emode, nops, exc, nfaults>>
            ELSE IF bw
-           THEN /\ evq' = Append(evq, [w |-> w, name |-> f.p, old |-> f.old, new |-> f.new, trg |-> trig])
+           THEN /\ evq' = Append(evq, [w |-> w, name |-> f.p, old |-> f.old, new |-> f.new, trg |-> trig, op |-> f.op])
                 /\ wq' = IF InSeq(w, wq) THEN wq ELSE Append(wq, w)
                 /\ stack' = Append(Pop, f2) /\ NoVis
                 /\ UNCHANGED <<val, bw, trig, W, emode, nops, exc, nfaults>>
@@ -327,7 +329,7 @@ StepUpdate ==
                   /\ exc' = TRUE /\ NoVis
                   /\ UNCHANGED <<val, bw, trig, evq, wq, W, emode, stack, nops, nfaults>>
              ELSE /\ val' = [val EXCEPT ![p] = v]
-                  /\ stack' = Append(Append(Pop, f2), SetFrame(p, v, FALSE, FALSE))
+                  /\ stack' = Append(Append(Pop, f2), SetFrame(p, v, FALSE, FALSE, nops))
                   /\ NoVis
                   /\ UNCHANGED <<bw, trig, evq, wq, W, emode, nops, exc, nfaults>>
 
@@ -374,7 +376,12 @@ Unwind ==
                  /\ val' = IF f.k = "flush" THEN val ELSE AfterSet(f)
                  /\ IF ~bw /\ evq # <<>>
                     THEN IF OnAbort = "drop"
-                         THEN /\ evq' = <<>> /\ wq' = <<>> /\ stack' = Pop /\ NoVis
+                         THEN \* (only what this dispatch queued is dropped: an assignment made -- and its failure
+                              \*  caught -- by a watcher of an enclosing dispatch leaves that dispatch's queue alone)
+                              /\ LET keep == IF f.k = "flush" THEN <<>> ELSE SelectSeq(evq, LAMBDA e : e.op < f.op) IN
+                                 /\ evq' = keep
+                                 /\ wq' = SelectSeq(wq, LAMBDA w : \E i \in 1..Len(keep) : keep[i].w = w)
+                              /\ stack' = Pop /\ NoVis
                               /\ UNCHANGED <<bw, trig, W, emode, nops, exc, nfaults>>
                          ELSE /\ stack' = Append(Append(Pop, AfterFrame(TRUE, "none")), FlushFrame)
                               /\ exc' = FALSE /\ NoVis
